@@ -125,10 +125,10 @@ Definition expected_names (gen : string) (n : nat) (names : list string) : list 
 
 (** documented minimum (error messages / doc comments of treegen.go) *)
 Definition valid_size (gen : string) (n : nat) (rooted : bool) : bool :=
-  if String.eqb gen "balanced" then Nat.leb 1 n
+  if String.eqb gen "balanced" then (if rooted then Nat.leb 1 n else Nat.leb 2 n)
   else if String.eqb gen "star" || String.eqb gen "starnames" then Nat.leb 2 n
   else if String.eqb gen "topologies" then (if rooted then Nat.leb 2 n else Nat.leb 3 n)
-  else (if rooted then Nat.leb 3 n else Nat.leb 2 n).
+  else Nat.leb 3 n.
 
 Definition oracle_tree (gen : string) (n : nat) (rooted : bool) (names : list string) (g : utree) (o : sexp)
   : option string :=
@@ -174,7 +174,7 @@ Definition plan_of (gen : string) (n : nat) (rooted : bool) : list draw :=
   if String.eqb gen "uniform" then uniform_plan n rooted
   else if String.eqb gen "yule" then yule_plan n rooted
   else if String.eqb gen "caterpillar" then caterpillar_plan n rooted
-  else if String.eqb gen "balanced" then balanced_plan n
+  else if String.eqb gen "balanced" then balanced_plan n rooted
   else [].
 
 Definition run_model (gen : string) (n : nat) (rooted : bool) (names : list string) (cs : list nat) (ls : list Q)
